@@ -47,6 +47,11 @@ int libwifi_parse_deauth(struct libwifi_parsed_deauth *deauth, struct libwifi_fr
         return -EINVAL;
     }
 
+    // The reason code must be present
+    if (frame->len < (frame->header_len + sizeof(struct libwifi_deauth_fixed_parameters))) {
+        return -EINVAL;
+    }
+
     deauth->ordered = frame->frame_control.flags.ordered;
 
     if (deauth->ordered) {
@@ -66,9 +71,15 @@ int libwifi_parse_deauth(struct libwifi_parsed_deauth *deauth, struct libwifi_fr
     memcpy(&deauth->fixed_parameters, body, sizeof(struct libwifi_deauth_fixed_parameters));
     body += sizeof(struct libwifi_deauth_fixed_parameters);
 
-    deauth->tags.parameters = malloc(tags_len);
-    memcpy(&deauth->tags.parameters, body, tags_len);
-    memcpy(&deauth->tags.length, &tags_len, sizeof(tags_len));
+    // Copy whatever tagged parameters follow the reason code
+    if (tags_len > 0) {
+        deauth->tags.parameters = malloc(tags_len);
+        if (deauth->tags.parameters == NULL) {
+            return -ENOMEM;
+        }
+        memcpy(deauth->tags.parameters, body, tags_len);
+        deauth->tags.length = tags_len;
+    }
 
     return 0;
 }
